@@ -328,4 +328,6 @@ func runC15(p *P, r *R) {
 	}
 	r.ob("R15.4", "pop: reads the slot streams[head%%capacity]", p.pos(pop.Pos()), idxOK(pop, "streamPool.head"), true, "")
 	r.ob("R15.4", "push: writes the slot streams[tail%%capacity]", p.pos(push.Pos()), idxOK(push, "streamPool.tail"), true, "")
+	// R15.6 making a stream reusable never drops buffers it still owns (shared with C09 R09.12)
+	borrow(p, r, "C09", runC09, map[string]string{"R09.12": "R15.6"}, nil)
 }
